@@ -143,6 +143,16 @@ fn view_obs_inner(d: &[u8], lookups: &[u32], tags_out: &mut Vec<String>) -> (Vec
         })
         .collect();
     obs.push(format!("find {}", if finds.is_empty() { "-".to_string() } else { finds.join(" ") }));
+    // `inner()` / `into_inner()` (track apigaps): the bytes the view was built from, untouched
+    let inner_now: Vec<u8> = msg.inner().to_vec();
+    if inner_now != d {
+        bad("inner() differs from the bytes the view was built from".into());
+    }
+    let into = MessageView::new(Cow::Borrowed(d)).map(|m| m.into_inner().into_owned());
+    obs.push(format!("inner {} {}", to_hex(&inner_now), (into.as_ref().ok() == Some(&inner_now)) as u8));
+    if into.ok().as_deref() != Some(d) {
+        bad("into_inner() differs from the bytes the view was built from".into());
+    }
 
     // ---- the property, on the real accessors
     if !m1 {
@@ -390,6 +400,57 @@ impl Exec for TlvViewExec {
                 }
                 so.obs = o;
                 so.violations.extend(v);
+                so
+            }
+            // `Tag`: every conversion and the ordering (track apigaps)
+            ["tag", a, b] => {
+                let (Ok(x), Ok(y)) = (a.parse::<u32>(), b.parse::<u32>()) else { return StepOut::bad() };
+                let mut so = StepOut::default();
+                let mut bad = |s: &str| {
+                    so.violations.push(format!("C12 Tag: {}", s));
+                    so.violations.push(format!("C11 Tag: {}", s));
+                };
+                let mk = |v: u32| -> (Tag, bool) {
+                    let t: Tag = v.into();
+                    let le = v.to_le_bytes();
+                    let same = t == Tag::new_from_u32(v)
+                        && t == Tag::from(&v)
+                        && t == Tag::new(&le)
+                        && t == Tag::from(le)
+                        && t == Tag::from(&le)
+                        && t.bytes == le
+                        && u32::from(t) == v
+                        && u32::from(&t) == v
+                        && t.value() == v;
+                    (t, same)
+                };
+                let ((ta, oka), (tb, okb)) = (mk(x), mk(y));
+                if !oka || !okb {
+                    bad("the conversions between u32, [u8; 4] and Tag disagree");
+                }
+                let c = ta.cmp(&tb);
+                if c != x.cmp(&y) {
+                    bad("Ord does not compare the little-endian values");
+                }
+                if ta.partial_cmp(&tb) != Some(c) || (ta < tb) != (x < y) || (ta == tb) != (x == y) || tb.cmp(&ta) != c.reverse() {
+                    bad("PartialOrd / Eq / Ord are inconsistent");
+                }
+                let ord = |o: std::cmp::Ordering| match o {
+                    std::cmp::Ordering::Less => "lt",
+                    std::cmp::Ordering::Equal => "eq",
+                    std::cmp::Ordering::Greater => "gt",
+                };
+                so.obs.push(format!(
+                    "tag a={}:{} b={}:{} cmp={} pcmp={} new={}",
+                    ta.value(),
+                    to_hex(&ta.bytes),
+                    tb.value(),
+                    to_hex(&tb.bytes),
+                    ord(c),
+                    ta.partial_cmp(&tb).map(ord).unwrap_or("none"),
+                    Tag::new(&ta.bytes).value()
+                ));
+                so.tags.push(format!("tag_{}", ord(c)));
                 so
             }
             _ => StepOut::bad(),
@@ -648,6 +709,24 @@ impl Family for TlvViewFamily {
             return ops;
         }
         let mut ops = Vec::new();
+        if rng.chance(1, 3) {
+            // `Tag` pairs: equal, adjacent, and pairs whose little-endian VALUE order differs from the
+            // order of their byte arrays (low byte vs high byte)
+            let a = match rng.below(5) {
+                0 => *rng.pick(&[0u32, 1, 255, 256, 0x544f4f52, 0x0047_4953, 0x8000_0000, u32::MAX]),
+                1 => (rng.next() as u32) & 0xFFFF,
+                _ => rng.next() as u32,
+            };
+            let b = match rng.below(6) {
+                0 => a,
+                1 => a.wrapping_add(1),
+                2 => a.swap_bytes(),
+                3 => a.rotate_left(8),
+                4 => a ^ (1 << (8 * rng.below(4) as u32)),
+                _ => rng.next() as u32,
+            };
+            ops.push(format!("tag {} {}", a, b));
+        }
         let n = match rng.below(8) {
             0 => 0,
             1 => 1,
